@@ -70,8 +70,14 @@ func (t *sleepTransaction) Sleep() error {
 	t.mu.Lock()
 	defer t.mu.Unlock()
 	state := t.client.state.Get()
+	if state == util.StateAwake && t.sleepDuration != t.client.sleepDuration {
+		// The gateway restarts the sleep period it knows about after
+		// PINGRESP; another duration must be announced by a new DISCONNECT.
+		state = util.StateActive
+	}
 	switch state {
 	case util.StateActive:
+		t.client.sleepDuration = t.sleepDuration
 		duration := uint16(t.sleepDuration / time.Second)
 		t.disconnect = pkts1.NewDisconnect(duration)
 		t.state = awaitingDisconnect
